@@ -20,6 +20,7 @@ import Proofs.CommuteSuccess
 import Proofs.CommuteSuccessR
 import Proofs.CommuteAround
 import Proofs.CommuteAroundDocs
+import Proofs.CommuteAroundMarkup
 namespace PM.C17
 open PM
 
@@ -807,5 +808,162 @@ theorem commute_around_around (S : Schema) (d da db dab dba : Node)
       exact SameRoot.square ra (SameRoot.of_around S _ _ _ _ _ _ _ _ _ hab) rb
         (SameRoot.of_around S _ _ _ _ _ _ _ _ _ hba)
   exact root.eq_of_toks htoks hn1 hn2
+
+/-! ### replace-around step vs. markup step -/
+
+/-- the shared end of the three clauses below: equal tokens and a kept markup step give equal documents -/
+theorem around_markup_docs (S : Schema) (d da db dab dba : Node) (f t gf gt ins : Nat) (sl : Slice)
+    (st : Bool) (M : Step) (g : Nat → Nat) (plo phi : Nat) (hsp : M.posSpan = some (plo, phi))
+    (ha : S.apply (.replaceAround f t gf gt sl ins st) d = .ok da) (hb : S.apply M d = .ok db)
+    (hab : S.apply (M.mapPos g) da = .ok dab) (hba : S.apply (.replaceAround f t gf gt sl ins st) db = .ok dba)
+    (htoks : ftoks dab.kids = ftoks dba.kids)
+    (hn1 : fnorm dab.kids = true) (hn2 : fnorm dba.kids = true) : dab = dba :=
+  (SameRoot.square (SameRoot.of_around S _ _ _ _ _ _ _ _ _ ha)
+    (SameRoot.of_markup S _ _ _ _ _ (posSpan_mapPos M g plo phi hsp) hab)
+    (SameRoot.of_markup S _ _ _ _ _ hsp hb)
+    (SameRoot.of_around S _ _ _ _ _ _ _ _ _ hba)).eq_of_toks htoks hn1 hn2
+
+/-- **a replace-around step and a node-mark or attr step on a separated token** — before the step's
+    range, after it, or *inside the kept gap* (the gap content is kept and moves by
+    `insert − (gapFrom − from)`): neither rebased step is dropped (the node step is the same step at
+    the moved position, the replace-around step is unchanged), and whenever all four applications
+    succeed both orders give the same tokens, hence (normal form) the same document.  No guard. -/
+theorem commute_around_nodeStep (S : Schema) (d da db dab dba : Node) (f t gf gt ins : Nat) (sl : Slice)
+    (st : Bool) (pos : Nat) (N N' A' : Step) (hN : NodeStepAt pos N)
+    (hs : AroundShape f t gf gt sl ins)
+    (hout : pos < f ∨ (gf < pos ∧ pos < gt) ∨ t < pos)
+    (ha : S.apply (.replaceAround f t gf gt sl ins st) d = .ok da) (hb : S.apply N d = .ok db)
+    (hN' : N.map (Step.replaceAround f t gf gt sl ins st).getMap = some N')
+    (hA' : (Step.replaceAround f t gf gt sl ins st).map N.getMap = some A')
+    (hab : S.apply N' da = .ok dab) (hba : S.apply A' db = .ok dba) :
+    (∃ g, N' = N.mapPos g) ∧ A' = .replaceAround f t gf gt sl ins st ∧
+    ftoks dab.kids = ftoks dba.kids ∧
+    (fnorm dab.kids = true → fnorm dba.kids = true → dab = dba) := by
+  have hsp : N.posSpan = some (pos, pos) := by
+    rcases hN with ⟨m, rfl⟩ | ⟨m, rfl⟩ | ⟨n, v, rfl⟩ <;> rfl
+  have hto : N.touch = some (pos, pos + 1) := by
+    rcases hN with ⟨m, rfl⟩ | ⟨m, rfl⟩ | ⟨n, v, rfl⟩ <;> rfl
+  have hfn : ∀ p q tok, markupFn S N p tok = markupFn S N q tok := by
+    rcases hN with ⟨m, rfl⟩ | ⟨m, rfl⟩ | ⟨n, v, rfl⟩ <;> intro p q tok <;> rfl
+  have key : ∃ g, N' = N.mapPos g ∧ A' = .replaceAround f t gf gt sl ins st ∧
+      ftoks dab.kids = ftoks dba.kids := by
+    rcases hout with h | ⟨h, h'⟩ | h
+    · obtain ⟨e1, e2, e3⟩ := commute_around_markup_before S d da db dab dba f t gf gt ins sl st N N' A'
+        pos pos hsp (Nat.le_refl _) hs h ha hb hN' hA' hab hba
+      exact ⟨id, by rw [e1]; exact (Step.mapPos_id _ id (fun _ => rfl)).symm, e2, e3⟩
+    · obtain ⟨e1, e2, e3⟩ := commute_around_markup_gap S d da db dab dba f t gf gt ins sl st N N' A'
+        pos pos hsp (Nat.le_refl _) hs h h' ha hb hN' hA' hab hba (pos + 1) hto
+        (fun i tok _ _ _ => hfn _ _ _)
+      exact ⟨_, e1, e2, e3⟩
+    · obtain ⟨e1, e2, e3⟩ := commute_around_markup_after S d da db dab dba f t gf gt ins sl st N N' A'
+        pos pos hsp (Nat.le_refl _) hs h ha hb hN' hA' hab hba (pos + 1) hto
+        (fun i tok _ _ _ => hfn _ _ _)
+      exact ⟨_, e1, e2, e3⟩
+  obtain ⟨g, e1, e2, e3⟩ := key
+  refine ⟨⟨g, e1⟩, e2, e3, fun hn1 hn2 => ?_⟩
+  subst e1 e2
+  exact around_markup_docs S d da db dab dba f t gf gt ins sl st N g pos pos hsp ha hb hab hba e3 hn1 hn2
+
+/-- **replace-around step vs. a mark step before its range, and vs. a remove-mark step on any separated
+    range**: no guard (earlier tokens keep their enclosing nodes; removing a mark does not look at the
+    enclosing node) -/
+theorem commute_around_mark_unguarded (S : Schema) (d da db dab dba : Node) (f t gf gt ins : Nat)
+    (sl : Slice) (st : Bool) (f2 t2 : Nat) (mk : Mark) (M M' A' : Step) (hle : f2 ≤ t2)
+    (hs : AroundShape f t gf gt sl ins)
+    (hM : (M = .addMark f2 t2 mk ∧ t2 < f) ∨
+      (M = .removeMark f2 t2 mk ∧ (t2 < f ∨ (gf < f2 ∧ t2 < gt) ∨ t < f2)))
+    (ha : S.apply (.replaceAround f t gf gt sl ins st) d = .ok da) (hb : S.apply M d = .ok db)
+    (hM' : M.map (Step.replaceAround f t gf gt sl ins st).getMap = some M')
+    (hA' : (Step.replaceAround f t gf gt sl ins st).map M.getMap = some A')
+    (hab : S.apply M' da = .ok dab) (hba : S.apply A' db = .ok dba) :
+    ftoks dab.kids = ftoks dba.kids ∧
+    (fnorm dab.kids = true → fnorm dba.kids = true → dab = dba) := by
+  have hsp : M.posSpan = some (f2, t2) := by rcases hM with ⟨rfl, _⟩ | ⟨rfl, _⟩ <;> rfl
+  have key : ∃ g, M' = M.mapPos g ∧ A' = .replaceAround f t gf gt sl ins st ∧
+      ftoks dab.kids = ftoks dba.kids := by
+    have before : t2 < f → ∃ g, M' = M.mapPos g ∧ A' = .replaceAround f t gf gt sl ins st ∧
+        ftoks dab.kids = ftoks dba.kids := by
+      intro h
+      obtain ⟨e1, e2, e3⟩ := commute_around_markup_before S d da db dab dba f t gf gt ins sl st M M' A'
+        f2 t2 hsp hle hs h ha hb hM' hA' hab hba
+      exact ⟨id, by rw [e1]; exact (Step.mapPos_id _ id (fun _ => rfl)).symm, e2, e3⟩
+    rcases hM with ⟨rfl, h⟩ | ⟨rfl, h | ⟨h, h'⟩ | h⟩
+    · exact before h
+    · exact before h
+    · obtain ⟨e1, e2, e3⟩ := commute_around_markup_gap S d da db dab dba f t gf gt ins sl st _ M' A'
+        f2 t2 hsp hle hs h h' ha hb hM' hA' hab hba t2 rfl (fun i tok _ _ _ => rfl)
+      exact ⟨_, e1, e2, e3⟩
+    · obtain ⟨e1, e2, e3⟩ := commute_around_markup_after S d da db dab dba f t gf gt ins sl st _ M' A'
+        f2 t2 hsp hle hs h ha hb hM' hA' hab hba t2 rfl (fun i tok _ _ _ => rfl)
+      exact ⟨_, e1, e2, e3⟩
+  obtain ⟨g, e1, e2, e3⟩ := key
+  refine ⟨e3, fun hn1 hn2 => ?_⟩
+  subst e1 e2
+  exact around_markup_docs S d da db dab dba f t gf gt ins sl st M g f2 t2 hsp ha hb hab hba e3 hn1 hn2
+
+/-- **replace-around step vs. add-mark step inside the kept gap or after the range, under
+    `ParentStable`** (the marked inline atoms keep the type of their enclosing node: true for `wrap`
+    and `lift`, which re-parent blocks, not inline content; for `set_node_markup` / `set_block_type` it
+    says that the marked text's parent keeps its type).  Without the guard the statement is false for
+    the same reason as `commute_replace_mark_partial`. -/
+-- FULL STATEMENT (false in the reference implementation too): the same without `hstable`.
+theorem commute_around_mark_partial (S : Schema) (d da db dab dba : Node) (f t gf gt ins : Nat)
+    (sl : Slice) (st : Bool) (f2 t2 f2' t2' : Nat) (mk : Mark) (A' : Step) (hle : f2 ≤ t2)
+    (hs : AroundShape f t gf gt sl ins)
+    (hsep : (gf < f2 ∧ t2 < gt) ∨ t < f2)
+    (ha : S.apply (.replaceAround f t gf gt sl ins st) d = .ok da)
+    (hb : S.apply (.addMark f2 t2 mk) d = .ok db)
+    (hM' : (Step.addMark f2 t2 mk).map (Step.replaceAround f t gf gt sl ins st).getMap =
+      some (.addMark f2' t2' mk))
+    (hA' : (Step.replaceAround f t gf gt sl ins st).map (Step.addMark f2 t2 mk).getMap = some A')
+    (hab : S.apply (.addMark f2' t2' mk) da = .ok dab) (hba : S.apply A' db = .ok dba)
+    (hstable : ParentStable S d da f2 t2 f2') :
+    ftoks dab.kids = ftoks dba.kids ∧
+    (fnorm dab.kids = true → fnorm dba.kids = true → dab = dba) := by
+  have hsp : (Step.addMark f2 t2 mk).posSpan = some (f2, t2) := rfl
+  have hg := hs.2.2
+  obtain ⟨hlenS, hs0⟩ := Slice.toks_length_of_wf_ex sl hs.1
+  have hins := hs.2.1
+  have stab : ∀ (c : Nat), f2' = c + 0 → ∀ i tok, f2 ≤ i → i < t2 → (ftoks d.kids)[i]? = some tok →
+      markupFn S (.addMark f2 t2 mk) ((ctxOf (S.tyOf d) (ftoks da.kids)).getD (c + (i - f2)) 0) tok =
+        markupFn S (.addMark f2 t2 mk) ((ctxOf (S.tyOf d) (ftoks d.kids)).getD i 0) tok := by
+    intro c hc i tok g1 g2 g3
+    show addTok S mk _ tok = addTok S mk _ tok
+    have htok : (ftoks d.kids).getD i Tok.cl = tok := by
+      rw [List.getD_eq_getElem?_getD, g3]; rfl
+    by_cases hat : isAtomTok S tok = true
+    · have := hstable i g2 g1 (by rw [htok]; exact hat)
+      rw [show f2' = c by omega] at this
+      rw [this]
+    · simp [addTok, hat]
+  have key : ∃ g, Step.addMark f2' t2' mk = (Step.addMark f2 t2 mk).mapPos g ∧
+      A' = .replaceAround f t gf gt sl ins st ∧ ftoks dab.kids = ftoks dba.kids := by
+    rcases hsep with ⟨h, h'⟩ | h
+    · have hmapped := (markup_map_around _ f2 t2 hsp hle f t gf gt sl ins st hg).2.1 h h'
+      have hM'' := hM'
+      rw [hmapped] at hM''
+      simp only [Step.mapPos, Option.some.injEq, Step.addMark.injEq, and_true] at hM''
+      obtain ⟨e1, e2, e3⟩ := commute_around_markup_gap S d da db dab dba f t gf gt ins sl st _ _ A'
+        f2 t2 hsp hle hs h h' ha hb hM' hA' hab hba t2 rfl
+        (fun i tok g1 g2 g3 => by
+          have := stab (f + ins + (f2 - gf)) (by omega) i tok g1 g2 g3
+          rwa [show f + ins + (f2 - gf) + (i - f2) = f + ins + (i - gf) by omega] at this)
+      exact ⟨_, e1, e2, e3⟩
+    · have hmapped := (markup_map_around _ f2 t2 hsp hle f t gf gt sl ins st hg).2.2 h
+      have hM'' := hM'
+      rw [hmapped] at hM''
+      simp only [Step.mapPos, Option.some.injEq, Step.addMark.injEq, and_true] at hM''
+      obtain ⟨e1, e2, e3⟩ := commute_around_markup_after S d da db dab dba f t gf gt ins sl st _ _ A'
+        f2 t2 hsp hle hs h ha hb hM' hA' hab hba t2 rfl
+        (fun i tok g1 g2 g3 => by
+          have := stab (f + (gt - gf) + sl.toks.length + (f2 - t)) (by omega) i tok g1 g2 g3
+          rwa [show f + (gt - gf) + sl.toks.length + (f2 - t) + (i - f2) =
+            f + (gt - gf) + sl.toks.length + (i - t) by omega] at this)
+      exact ⟨_, e1, e2, e3⟩
+  obtain ⟨g, e1, e2, e3⟩ := key
+  refine ⟨e3, fun hn1 hn2 => ?_⟩
+  subst e2
+  rw [e1] at hab
+  exact around_markup_docs S d da db dab dba f t gf gt ins sl st _ g f2 t2 hsp ha hb hab hba e3 hn1 hn2
 
 end PM.C17
